@@ -1,0 +1,34 @@
+//go:build verif
+// +build verif
+
+package syncer
+
+import (
+	"github.com/tikv/pd/server/core"
+	"github.com/tikv/pd/server/kv"
+)
+
+// VerifHistoryBuffer exposes the region-sync change log to the verification harness.
+type VerifHistoryBuffer struct{ h *historyBuffer }
+
+// VerifNewHistoryBuffer creates a change log of the given capacity on kv.
+func VerifNewHistoryBuffer(size int, kv kv.Base) *VerifHistoryBuffer {
+	return &VerifHistoryBuffer{h: newHistoryBuffer(size, kv)}
+}
+
+// Record appends a record.
+func (b *VerifHistoryBuffer) Record(r *core.RegionInfo) { b.h.Record(r) }
+
+// RecordsFrom returns the records from index on.
+func (b *VerifHistoryBuffer) RecordsFrom(index uint64) []*core.RegionInfo {
+	return b.h.RecordsFrom(index)
+}
+
+// ResetWithIndex resets the log to start at index.
+func (b *VerifHistoryBuffer) ResetWithIndex(index uint64) { b.h.ResetWithIndex(index) }
+
+// GetNextIndex returns the next index.
+func (b *VerifHistoryBuffer) GetNextIndex() uint64 { return b.h.GetNextIndex() }
+
+// VerifNextIndex returns the next index of the syncer's change log.
+func (s *RegionSyncer) VerifNextIndex() uint64 { return s.history.GetNextIndex() }
